@@ -23,7 +23,7 @@ Inductive cprim := QAdd | QSub | QMul | QLt | QLe | QGt | QGe | QNumEq | QNot | 
 Inductive expr :=
 | EConst (c : cconst)
 | EVar (x : ident)                                  (* innermost local binding, else global *)
-| ELam (ps : list ident) (body : expr)              (* fixed arity *)
+| ELam (ps : list ident) (rest : option ident) (body : expr)   (* fixed parameters + optional rest parameter *)
 | EApp (f : expr) (args : list expr)                (* operands left to right, operator LAST *)
 | EIf (c t e : expr)
 | ELet (bs : list (ident * expr)) (body : expr)     (* parallel let *)
@@ -34,7 +34,8 @@ Inductive errk := EArity | EType | ENotProc | EFree | EOverflow.
 Inductive val :=
 | VInt (z : Z) | VBool (b : bool) | VVoid
 | VPrim (p : cprim)
-| VClo (ps : list ident) (body : expr) (env : list (ident * val)).
+| VClo (ps : list ident) (rest : option ident) (body : expr) (env : list (ident * val))
+| VList (l : list val).                            (* the list a rest parameter is bound to *)
 
 Definition env := list (ident * val).
 
@@ -131,6 +132,20 @@ Fixpoint evals (ev : expr -> option result) (es : list expr) : option (list val 
     end
   end.
 
+(* parameter list of a closure, and the values they are bound to at a call with operands vs:
+   fixed arity: exactly the operands; with a rest parameter: the first |ps| operands, then the list of
+   the surplus operands (at least |ps| operands are required) *)
+Definition params (ps : list ident) (rest : option ident) : list ident :=
+  match rest with Some r => (ps ++ [r])%list | None => ps end.
+
+Definition call_args (ps : list ident) (rest : option ident) (vs : list val) : option (list ident * list val) :=
+  match rest with
+  | None => if Nat.eqb (List.length ps) (List.length vs) then Some (ps, vs) else None
+  | Some r => if Nat.leb (List.length ps) (List.length vs)
+              then Some ((ps ++ [r])%list, (firstn (List.length ps) vs ++ [VList (skipn (List.length ps) vs)])%list)
+              else None
+  end.
+
 Section Eval.
   Variable G : env.                       (* global bindings (primitives and top-level definitions) *)
 
@@ -148,7 +163,7 @@ Section Eval.
                     | None => Some (Err EFree)
                     end
           end
-      | ELam ps body => Some (Val (VClo ps body r))
+      | ELam ps rest body => Some (Val (VClo ps rest body r))
       | EApp f args =>
           match evals (ceval n r) args with
           | None => None
@@ -159,10 +174,11 @@ Section Eval.
             | Some (Err k) => Some (Err k)
             | Some (Val fv) =>
               match fv with
-              | VClo ps body r' =>
-                  if Nat.eqb (List.length ps) (List.length vs)
-                  then ceval n (bind ps vs r') body
-                  else Some (Err EArity)
+              | VClo ps rest body r' =>
+                  match call_args ps rest vs with
+                  | Some (xs, ws) => ceval n (bind xs ws r') body
+                  | None => Some (Err EArity)
+                  end
               | VPrim p => Some (prim_apply p vs)
               | _ => Some (Err ENotProc)
               end
@@ -235,8 +251,13 @@ Definition canon_atom (a : atom) (other : string) : string :=
   | AOther => other
   end.
 
-Definition canon_val (v : val) : string :=
-  canon_atom (val_atom v) (match v with VVoid => "#<void>" | _ => "#<procedure>" end).
+Fixpoint canon_val (v : val) : string :=
+  match v with
+  | VVoid => "#<void>"
+  | VList l => "(" ++ Lang.join " " (map canon_val l) ++ ")"
+  | VPrim _ | VClo _ _ _ _ => "#<procedure>"
+  | _ => canon_atom (val_atom v) "?"
+  end.
 
 Definition render_result (r : option result) : string :=
   match r with
@@ -266,6 +287,40 @@ Fixpoint seq_of (es : list expr) : expr :=
   | e :: r => ESeq e (seq_of r)
   end.
 
+(* derived forms are translated to the core forms the way the engine's macro expander reads them:
+   (when c e...) = (if c (begin e...) void), (and a b ...) = (if a (and b ...) #f),
+   (or a b ...) = (let ((t a)) (if t t (or b ...))) with a reserved temporary, cond = nested if,
+   let* = nested let.  Named let / letrec / set! / define inside expressions / quote / strings ... are
+   outside the fragment (None). *)
+Definition or_tmp : ident := "%or-tmp".
+
+Fixpoint and_of (es : list expr) : expr :=
+  match es with
+  | [] => EConst (KBool true)
+  | [e] => e
+  | e :: r => EIf e (and_of r) (EConst (KBool false))
+  end.
+
+Fixpoint or_of (es : list expr) : expr :=
+  match es with
+  | [] => EConst (KBool false)
+  | [e] => e
+  | e :: r => ELet [(or_tmp, e)] (EIf (EVar or_tmp) (EVar or_tmp) (or_of r))
+  end.
+
+Fixpoint letstar_of (bs : list (ident * expr)) (body : expr) : expr :=
+  match bs with
+  | [] => ELet [] body
+  | b :: r => ELet [b] (letstar_of r body)
+  end.
+
+Fixpoint cond_of (cls : list (expr * list expr)) (els : expr) : expr :=
+  match cls with
+  | [] => els
+  | (c, []) :: r => ELet [(or_tmp, c)] (EIf (EVar or_tmp) (EVar or_tmp) (cond_of r els))
+  | (c, b) :: r => EIf c (seq_of b) (cond_of r els)
+  end.
+
 Fixpoint of_lang (e : Lang.expr) : option expr :=
   let fix go_list (es : list Lang.expr) : option (list expr) :=
     match es with
@@ -277,16 +332,35 @@ Fixpoint of_lang (e : Lang.expr) : option expr :=
     | [] => Some []
     | (x, e) :: r => match of_lang e, go_binds r with Some a, Some b => Some ((x, a) :: b) | _, _ => None end
     end in
+  let fix go_clauses (cls : list (Lang.expr * list Lang.expr)) : option (list (expr * list expr)) :=
+    match cls with
+    | [] => Some []
+    | (c, b) :: r => match of_lang c, go_list b, go_clauses r with
+                     | Some c', Some b', Some r' => Some ((c', b') :: r') | _, _, _ => None end
+    end in
   match e with
   | Lang.Const c => match of_const c with Some k => Some (EConst k) | None => None end
   | Lang.Var x => Some (EVar x)
-  | Lang.Lam ps None body => match go_list body with Some b => Some (ELam ps (seq_of b)) | None => None end
+  | Lang.Lam ps rest body => match go_list body with Some b => Some (ELam ps rest (seq_of b)) | None => None end
   | Lang.App f args => match of_lang f, go_list args with Some f', Some a => Some (EApp f' a) | _, _ => None end
   | Lang.If c t e' => match of_lang c, of_lang t, of_lang e' with
                       | Some a, Some b, Some d => Some (EIf a b d) | _, _, _ => None end
   | Lang.Begin es => match go_list es with Some b => Some (seq_of b) | None => None end
   | Lang.Let bs body => match go_binds bs, go_list body with
                         | Some b, Some d => Some (ELet b (seq_of d)) | _, _ => None end
+  | Lang.LetStar bs body => match go_binds bs, go_list body with
+                            | Some b, Some d => Some (letstar_of b (seq_of d)) | _, _ => None end
+  | Lang.And es => match go_list es with Some b => Some (and_of b) | None => None end
+  | Lang.Or es => match go_list es with Some b => Some (or_of b) | None => None end
+  | Lang.When c es => match of_lang c, go_list es with
+                      | Some c', Some b => Some (EIf c' (seq_of b) (EConst KVoid)) | _, _ => None end
+  | Lang.Unless c es => match of_lang c, go_list es with
+                        | Some c', Some b => Some (EIf c' (EConst KVoid) (seq_of b)) | _, _ => None end
+  | Lang.Cond cls els =>
+      match go_clauses cls, (match els with Some b => go_list b | None => Some [] end) with
+      | Some cls', Some b => Some (cond_of cls' (match els with Some _ => seq_of b | None => EConst KVoid end))
+      | _, _ => None
+      end
   | _ => None
   end.
 
